@@ -17,6 +17,8 @@
 #include <sys/mman.h>
 #include <sys/syscall.h>
 #include <linux/futex.h>
+#include <sys/epoll.h>
+#include <sys/eventfd.h>
 #include <new>
 #include "engine/sched/sched.h"
 #include "engine/sched/sched_shared.h"
@@ -196,6 +198,8 @@ static VSem* getSem(const void* a, const char* op)
 }
 
 // ------------------------------------------------------------------------------------------------ scheduler core
+static unsigned long long vf_eventfd_counter(int fd);
+static bool vf_epoll_has_ready(int epfd);
 static bool mutexFreeFor(const VMutex* m, int tid) { return m->owner == -1 || (m->owner == tid && m->type == PTHREAD_MUTEX_RECURSIVE); }
 static bool enabled(VThread* t)
 {
@@ -207,6 +211,13 @@ static bool enabled(VThread* t)
   case B_COND: if(!t->condWoken) return false; { VMutex* m = getMutex(t->bmutex, "lock"); return mutexFreeFor(m, t->id); }
   case B_SEM: return t->wake == W_TIMEOUT || getSem(t->bobj, "wait")->count > 0;
   case B_JOIN: return T[t->joinTarget].st == T_FINISHED;
+  case B_EVENT:
+  {
+    if(t->wake == W_TIMEOUT) return true;
+    int fd = (int)(uintptr_t)t->bobj;
+    if(fd >= 100000 && fd < 200000) return vf_eventfd_counter(fd) > 0;
+    return vf_epoll_has_ready(fd);
+  }
   }
   return false;
 }
@@ -625,6 +636,90 @@ extern "C" long vf_sysconf(int name)
   if(name == _SC_NPROCESSORS_ONLN || name == _SC_NPROCESSORS_CONF) return vf_config.processors;
   return sysconf(name);
 }
+
+// ------------------------------------------------------------------------------------------------ event descriptor + epoll model
+// Only event descriptors are modelled (the cross-thread wake-up of Server::interrupt); every other descriptor is real.
+struct VEventFd { bool live; unsigned long long counter; };
+struct VEpollReg { int epfd, fd; struct epoll_event ev; bool live; };
+static VEventFd EFD[32]; static int nEfd;
+static VEpollReg EREG[64]; static int nEreg;
+static const int EFD_BASE = 100000, EPFD_BASE = 200000;
+static bool isEfd(int fd) { return fd >= EFD_BASE && fd < EFD_BASE + nEfd; }
+static bool isEpfd(int fd) { return fd >= EPFD_BASE && fd < EPFD_BASE + 64; }
+static int nEpfd;
+extern "C" int vf_eventfd(unsigned int init, int)
+{
+  if(nEfd >= 32) rt_abort_execution(VF_HARNESS, "harness:table-full", "eventfd table full");
+  EFD[nEfd].live = true; EFD[nEfd].counter = init;
+  return EFD_BASE + nEfd++;
+}
+extern "C" int vf_epoll_create1(int) { return EPFD_BASE + nEpfd++; }
+extern "C" int vf_epoll_ctl(int epfd, int op, int fd, struct epoll_event* ev)
+{
+  if(!isEpfd(epfd)) return epoll_ctl(epfd, op, fd, ev);
+  for(int i = 0; i < nEreg; ++i) if(EREG[i].live && EREG[i].epfd == epfd && EREG[i].fd == fd)
+  {
+    if(op == EPOLL_CTL_DEL) EREG[i].live = false; else EREG[i].ev = *ev;
+    return 0;
+  }
+  if(op == EPOLL_CTL_DEL) { errno = ENOENT; return -1; }
+  if(nEreg >= 64) rt_abort_execution(VF_HARNESS, "harness:table-full", "epoll registration table full");
+  EREG[nEreg].epfd = epfd; EREG[nEreg].fd = fd; EREG[nEreg].ev = *ev; EREG[nEreg].live = true; ++nEreg;
+  return 0;
+}
+static int epollReady(int epfd, struct epoll_event* events, int maxevents)
+{
+  int n = 0;
+  for(int i = 0; i < nEreg && n < maxevents; ++i)
+    if(EREG[i].live && EREG[i].epfd == epfd && isEfd(EREG[i].fd) && EFD[EREG[i].fd - EFD_BASE].counter > 0 && (EREG[i].ev.events & EPOLLIN))
+    { events[n].events = EPOLLIN; events[n].data = EREG[i].ev.data; ++n; }
+  return n;
+}
+extern "C" int vf_epoll_wait(int epfd, struct epoll_event* events, int maxevents, int timeout)
+{
+  if(!isEpfd(epfd)) return epoll_wait(epfd, events, maxevents, timeout);
+  if(!rt.active || !self) return epollReady(epfd, events, maxevents);
+  VThread* me = self;
+  point(OP_SWAIT, (const void*)(uintptr_t)epfd);
+  me->deadline = timeout < 0 ? -1 : rt.clock + (long long)timeout * 1000000LL; me->wake = W_NORMAL;
+  for(;;)
+  {
+    int n = epollReady(epfd, events, maxevents);
+    if(n > 0) { me->deadline = -1; return n; }
+    if(timeout == 0 || me->wake == W_TIMEOUT || (me->deadline >= 0 && me->deadline <= rt.clock)) { me->deadline = -1; return 0; }
+    me->bobj = (const void*)(uintptr_t)epfd;
+    block(B_EVENT, (const void*)(uintptr_t)epfd);
+  }
+}
+extern "C" ssize_t vf_read(int fd, void* buf, size_t n)
+{
+  if(!isEfd(fd)) return read(fd, buf, n);
+  if(rt.active && self) point(OP_SWAIT, (const void*)(uintptr_t)fd);
+  VEventFd& e = EFD[fd - EFD_BASE];
+  if(n < 8) { errno = EINVAL; return -1; }
+  while(e.counter == 0) { if(!rt.active || !self) { errno = EAGAIN; return -1; } block(B_EVENT, (const void*)(uintptr_t)fd); }
+  unsigned long long v = e.counter; e.counter = 0;
+  memcpy(buf, &v, 8);
+  return 8;
+}
+extern "C" ssize_t vf_write(int fd, const void* buf, size_t n)
+{
+  if(!isEfd(fd)) return write(fd, buf, n);
+  if(rt.active && self) point(OP_SPOST, (const void*)(uintptr_t)fd);
+  if(n < 8) { errno = EINVAL; return -1; }
+  unsigned long long v; memcpy(&v, buf, 8);
+  EFD[fd - EFD_BASE].counter += v;
+  return 8;
+}
+extern "C" int vf_close(int fd)
+{
+  if(isEfd(fd)) { EFD[fd - EFD_BASE].live = false; return 0; }
+  if(isEpfd(fd)) { for(int i = 0; i < nEreg; ++i) if(EREG[i].epfd == fd) EREG[i].live = false; return 0; }
+  return close(fd);
+}
+
+static unsigned long long vf_eventfd_counter(int fd) { return EFD[fd - EFD_BASE].counter; }
+static bool vf_epoll_has_ready(int epfd) { struct epoll_event ev[1]; return epollReady(epfd, ev, 1) > 0; }
 
 // ------------------------------------------------------------------------------------------------ TSan ABI
 #define RT_EXPORT extern "C" __attribute__((visibility("default")))
